@@ -60,6 +60,14 @@ func cmdReplay(args []string) {
 			w.KeepLists = true
 			worlds[s+string(rune('0'+int(lm)))] = w
 		}
+		if s == "iface" { // (and one whose objects are named map types, registered: the families over abstract types run there too)
+			w, err := gq.NewMapWorld(&u, gq.ListIfaceSlice)
+			if err != nil {
+				vh.Die("%s", err)
+			}
+			w.KeepLists = true
+			worlds["ifaceM0"] = w
+		}
 		if s == "refl" { // one world per binding mode: by name / RegisterType / three spellings of @go
 			for b := gq.Binding(0); b < gq.NumBindings; b++ {
 				w, err := gq.NewReflWorld(&u, gq.ListMode(int(b)%3), b)
@@ -130,6 +138,9 @@ func cmdReplay(args []string) {
 			if s == "refl" && (strings.Contains(c.Doc.Text(gq.Layouts[0]), "on Any") || strings.Contains(c.Doc.Text(gq.Layouts[0]), "on Solo")) {
 				passes = append(passes, pass{s, si, int(gq.BindGoDirFull)})
 			}
+			if s == "iface" && reflOnly(c.Fam) && worlds["ifaceM0"] != nil && !gq.HasNthFault(c) {
+				passes = append(passes, pass{"ifaceM", si, 0})
+			}
 		}
 		for _, ps := range passes {
 			si, s := ps.si, ps.s
@@ -138,7 +149,7 @@ func cmdReplay(args []string) {
 			if s == "refl" && !gq.ReflSuitable(&u, c) {
 				continue
 			}
-			if reflOnly(c.Fam) && s != "refl" {
+			if reflOnly(c.Fam) && s != "refl" && s != "ifaceM" {
 				continue // abstract types need Go type bindings: reflection only (documented limitation)
 			}
 			if gq.HasNthFault(c) { // accessor failures exist only behind AnyResolver.Len/Nth
@@ -146,6 +157,9 @@ func cmdReplay(args []string) {
 					continue
 				}
 				lm = int(gq.ListResolver)
+			}
+			if s == "ifaceM" {
+				lm = 0
 			}
 			if s == "refl" {
 				lm = (i + si + rot) % int(gq.NumBindings)
